@@ -298,6 +298,8 @@ def run(ck, ctx):
         pcrow = [v for v in vals if "sim.pc" in v]
         ck.ob("C13.4", "breakpoint-rows", len(vals) == 3 and "Comparator::check(self as Mem.value, Word::get(index(sim.mem, self as Mem.addr)))" in vals and "Comparator::check(self as Reg.value, Word::get(index(sim.reg_file, self as Reg.reg)))" in vals and len(pcrow) == 1 and "self as PC.0" in pcrow[0] and pcrow[0] in ("eq(self as PC.0, sim.pc)", "eq(sim.pc, self as PC.0)", "Eq(self as PC.0, sim.pc)", "Eq(sim.pc, self as PC.0)"),
               "Breakpoint::check rows: %s" % vals, "src/sim/debug.rs:%s" % bc.line)
+    ck.include("C27", ctx, "C13.6", {"C27.1", "C27.3"}, "step_over/step_out compare frame depths: push/pop ownership and the +1/-1 counter discipline")
+    ck.include("C08", ctx, "C13.7", {"C08.2"}, "one instruction counter, incremented once per executed step")
     ck.assume("instructions_run has one writer adding 1 per executed step (C08.2); frame_no is changed only inside step (C27)")
     ck.assume("the segment-splitting equality itself (equal final state for any split) is argued from these facts, not computed")
     ck.assume("the tripwire of run_while is the caller's; purity of host-supplied tripwires is outside the claim")
